@@ -715,11 +715,12 @@ class FnView:
     def keys(self):
         return self.raw.keys()
 
+    # iteration (census-style rules) always sees the plain functions: a statement is counted once, where it stands
     def values(self):
-        return [self._v(f) for f in self.raw.values()]
+        return self.raw.values()
 
     def items(self):
-        return [(k, self._v(f)) for k, f in self.raw.items()]
+        return self.raw.items()
 
 
 class Program:
@@ -959,7 +960,7 @@ class Program:
         from . import inline
         h = self.raw_fns.get(fid)
         ok = False
-        if h is not None and h.kind != "closure" and len(h.blocks) <= inline.MAX_CALLEE_BLOCKS:
+        if h is not None and h.kind != "closure" and len(h.blocks) <= inline.MAX_CALLEE_BLOCKS and h.name not in inline.named_by_rules():
             sites = self.call_sites_into(fid)
             ok = bool(sites)
             for g, c in sites:
